@@ -447,7 +447,7 @@ class World:
                 except _Abort:
                     pass
         elif act == "Open":
-            self.reopen(a["m"])
+            self.reopen(a["m"], bool(a.get("fresh", True)))
         elif act == "CallClosed":
             self.call_closed(a["op"])
         else:
@@ -590,10 +590,10 @@ class World:
                                  f"gc.collect() it is still listed by the workspace", "C01,C05,C06")
         self._dying = []
 
-    def reopen(self, mode):
+    def reopen(self, mode, fresh=True):
         self.side = {}
         gc.collect()
-        if self.variant % 2 == 0:
+        if fresh:
             self.ws = self.Workspace(self.path, mode=mode)
         else:
             self.ws.open(mode=mode)
